@@ -204,6 +204,9 @@ func initArrayList() {
 				if value.Truthy(isEqual) {
 					self.RemoveAt(i)
 					removed = true
+					// the following elements have been shifted left,
+					// look at the same index again
+					i--
 				}
 			}
 
